@@ -35,7 +35,7 @@ use crate::zonetree::types::{
 use crate::zonetree::{Rrset, SharedRr};
 use crate::zonetree::{SharedRrset, WritableZone, WritableZoneNode};
 
-use super::nodes::{Special, ZoneApex, ZoneNode};
+use super::nodes::{NodeRrsets, Special, ZoneApex, ZoneNode};
 use super::versioned::{Version, VersionMarker};
 
 //------------ WriteZone -----------------------------------------------------
@@ -446,6 +446,65 @@ impl WriteNode {
         Ok(node)
     }
 
+    /// Records in the diff, if enabled, how an RRset is going to differ
+    /// from the last published version of the zone.
+    ///
+    /// While a new version of the zone is prepared the same RRset can be
+    /// edited any number of times. The diff has to describe the net change
+    /// between the published version and the new one, so on every edit
+    /// both diff entries of the RRset are replaced: records of the
+    /// published RRset that the new RRset lacks are removals, records of
+    /// the new RRset that the published RRset lacks are additions.
+    ///
+    /// Pass `None` as the new RRset if the RRset is being removed.
+    fn record_rrset_change(
+        &self,
+        rrsets: &NodeRrsets,
+        rtype: Rtype,
+        new_rrset: Option<&SharedRrset>,
+    ) {
+        let Some((owner, diff)) = &self.diff else {
+            return;
+        };
+
+        let old_rrset = rrsets.get(rtype, self.zone.last_published_version());
+        let old_rrs =
+            old_rrset.as_ref().map(|r| r.data()).unwrap_or_default();
+        let new_rrs = new_rrset.map(|r| r.data()).unwrap_or_default();
+
+        let mut diff = diff.lock().unwrap();
+
+        diff.clear_removed(owner, rtype);
+        if let Some(old_rrset) = &old_rrset {
+            let mut removed_rrs = Rrset::new(rtype, old_rrset.ttl());
+            for rr in old_rrs.iter().filter(|rr| !new_rrs.contains(rr)) {
+                removed_rrs.push_data(rr.clone());
+            }
+            if !removed_rrs.is_empty() {
+                trace!(
+                    "Diff detected: recording removal of {removed_rrs:#?}"
+                );
+                diff.remove(
+                    owner.clone(),
+                    rtype,
+                    SharedRrset::new(removed_rrs),
+                );
+            }
+        }
+
+        diff.clear_added(owner, rtype);
+        if let Some(new_rrset) = new_rrset {
+            let mut added_rrs = Rrset::new(rtype, new_rrset.ttl());
+            for rr in new_rrs.iter().filter(|rr| !old_rrs.contains(rr)) {
+                added_rrs.push_data(rr.clone());
+            }
+            if !added_rrs.is_empty() {
+                trace!("Diff detected: recording addition of {added_rrs:#?}");
+                diff.add(owner.clone(), rtype, SharedRrset::new(added_rrs));
+            }
+        }
+    }
+
     fn update_rrset(&self, new_rrset: SharedRrset) -> Result<(), io::Error> {
         let rrsets = match self.node {
             Either::Right(ref apex) => apex.rrsets(),
@@ -453,99 +512,7 @@ impl WriteNode {
         };
 
         trace!("Updating RRset");
-        if let Some((owner, diff)) = &self.diff {
-            let current_rrset = if let Some(current_rrset) = rrsets
-                .get(new_rrset.rtype(), self.zone.last_published_version())
-            {
-                let changed = new_rrset != current_rrset;
-
-                if changed && !current_rrset.is_empty() {
-                    Some(current_rrset)
-                } else {
-                    None
-                }
-            } else {
-                None
-            };
-
-            match (current_rrset.is_some(), !new_rrset.is_empty()) {
-                (true, true) => {
-                    trace!(
-                        "Diff detected: update of existing RRSET - recording change of RRSET from {current_rrset:?} to {new_rrset:#?}"
-                    );
-
-                    // Check each resource record in the RRset being updated
-                    // to see if it is missing from the new RRSet.
-                    let new_rrs = new_rrset.as_rrset().data();
-                    let mut removed_rrs =
-                        Rrset::new(new_rrset.rtype(), new_rrset.ttl());
-                    for removed_rr in current_rrset
-                        .as_ref()
-                        .unwrap()
-                        .as_rrset()
-                        .data()
-                        .iter()
-                        .filter(|rr| !new_rrs.contains(rr))
-                    {
-                        removed_rrs.push_data(removed_rr.clone());
-                    }
-
-                    if !removed_rrs.is_empty() {
-                        diff.lock().unwrap().remove(
-                            owner.clone(),
-                            new_rrset.rtype(),
-                            SharedRrset::new(removed_rrs),
-                        );
-                    }
-
-                    // Check each resource record in the new RRset to see if
-                    // it is missing from the RRset being updated.
-                    let old_rrs =
-                        current_rrset.as_ref().unwrap().as_rrset().data();
-                    let mut added_rrs =
-                        Rrset::new(new_rrset.rtype(), new_rrset.ttl());
-                    for added_rr in new_rrset
-                        .as_rrset()
-                        .data()
-                        .iter()
-                        .filter(|rr| !old_rrs.contains(rr))
-                    {
-                        added_rrs.push_data(added_rr.clone());
-                    }
-
-                    if !added_rrs.is_empty() {
-                        diff.lock().unwrap().add(
-                            owner.clone(),
-                            new_rrset.rtype(),
-                            SharedRrset::new(added_rrs),
-                        );
-                    }
-                }
-                (true, false) => {
-                    trace!(
-                        "Diff detected: update of existing RRSET - recording removal of the current RRSET {current_rrset:#?}"
-                    );
-                    diff.lock().unwrap().remove(
-                        owner.clone(),
-                        new_rrset.rtype(),
-                        current_rrset.unwrap().clone(),
-                    );
-                }
-                (false, true) => {
-                    trace!(
-                        "Diff detected: update of existing RRSET - recording addition of new RRSET {new_rrset:#?}"
-                    );
-                    diff.lock().unwrap().add(
-                        owner.clone(),
-                        new_rrset.rtype(),
-                        new_rrset.clone(),
-                    );
-                }
-                (false, false) => {
-                    // NOOP
-                }
-            }
-        }
+        self.record_rrset_change(rrsets, new_rrset.rtype(), Some(&new_rrset));
 
         rrsets.update(new_rrset, self.zone.new_version);
         self.check_nx_domain()?;
@@ -570,20 +537,7 @@ impl WriteNode {
             Either::Right(ref node) => node.rrsets(),
         };
 
-        if let Some((owner, diff)) = &self.diff {
-            if let Some(removed) =
-                rrsets.get(rtype, self.zone.last_published_version())
-            {
-                trace!(
-                    "Diff detected: removal of existing RRSET: {removed:#?}"
-                );
-                diff.lock().unwrap().remove(
-                    owner.clone(),
-                    rtype,
-                    removed.clone(),
-                );
-            }
-        }
+        self.record_rrset_change(rrsets, rtype, None);
 
         rrsets.remove_rtype(rtype, self.zone.new_version);
         self.check_nx_domain()?;
